@@ -27,13 +27,27 @@ nodes at all levels.  What IS established:
   reports a defect of the machinery if a case outside `K_C18_sl` crashes in the model, or if the
   python class predicate `mapgen.k_c18_sl` (the generator's filter: array ownership replayed on the
   dictionary) accepts a case that `K_C18_sl` rejects — the python class is contained in the Lean one;
-* proved for all histories: traversals by `qb_map_foreach` (iterator created, advanced up to the
-  `stop`-th entry or to the end, freed — i.e. complete and abandoned iterations) over a level-0
-  list touch no freed memory, hand out every entry exactly once in ascending order and leave the
-  map unchanged (`sl_traversal_safe_partial`, `sl_iter_steps_partial`, and
-  `sl_memory_safe_c17_partial` of Props/C17Sl.lean for whole histories).
+* PROVED, all levels, for ALL interleavings of iterator create/next/free (any number of iterators,
+  abandoned part-way, unknown ids, next after the end) with put/get/rm/count/foreach/notifier
+  add/del/destroy outside the coarser class `K_parked` (some `rm` removes an entry while an iterator
+  is parked on it; evaluated on the model; `K_C18_sl` ⊆ `K_parked` since only such a removal creates a
+  shared forward array):
+  - `sl_iter_memory_safe_partial`: no operation touches freed memory, the model never crashes —
+    removing the entries before/behind a parked iterator, all other entries, inserting right behind
+    a parked iterator, raising and trimming levels under open iterators are all inside;
+  - `sl_iter_abstraction_partial`: the notification trace equals the dictionary's and at the end the
+    invariant `Inv` holds for the dictionary's entries with the same iterators open;
+  - `sl_after_iters_dict_partial`: once all iterators are freed, every iterator-free continuation
+    gives the dictionary's results and notifications;
+  - `sl_traversal_safe_partial`, `sl_iter_steps_partial`: complete/abandoned traversals and single
+    `iter_next` steps in every state satisfying `Inv`, whatever iterators are open
+    (`iterCreate_inv`, `iterNext_inv`, `iterFree_inv`: refcount = 1 + parked iterators).
+  What is missing for the full statement is exactly the takeover mechanism itself: removal of the
+  entry an iterator is parked on (removed-but-referenced nodes sharing their predecessor's array,
+  deferred DELETED notification).
 -/
 import QbVerif.Props.C17Sl
+import QbVerif.Lemmas.SlmCurIter
 
 namespace QbVerif.Skiplist
 open QbVerif.Map
@@ -104,24 +118,95 @@ def multiOps : List Op :=
 
 theorem test_sl_multilevel_agrees : (run multiOps).2 = (Dict.run .sl multiOps).2 := by decide
 
-/-- every step of an iterator over an unmodified level-0 list: parked on `p` whose level-0
-    successor is the entry node `n`, `iter_next` touches only allocated memory, returns that entry
-    and parks on it (reference moved from `p` to `n`) -/
-theorem sl_iter_steps_partial {s : SL} {p n : NodeId} {pn : Node} {e : Entry} {pa fn}
-    (hp : s.nodes p = some pn) (hrc : pn.refcount = 1) (hpa : s.fwds pn.fwd = some pa) (hn0 : pa 0 = some n)
-    (hn : s.nodes n = some ⟨some e.key, e.val, 1, 1, fn, e.notifs⟩) (hne : p ≠ n) (hi : s.iters = []) :
-    (park s p pn).iterNext 0 (some p) =
-      .ok (park s n ⟨some e.key, e.val, 1, 1, fn, e.notifs⟩, [], some (e.key, e.val)) :=
-  iterNext_park_some hp hrc hpa hn0 hn rfl hne hi
+/-- the class treated by the theorems below, evaluated on the model: some `rm` of the history
+    removes an entry while an iterator is parked on it (the removed node then stays allocated and
+    shares a forward array — the takeover mechanism; `K_C18_sl` ⊆ this class) -/
+def K_parked (ops : List Op) : Bool := !noRmParked create ops
 
-/-- complete and abandoned iterations over a level-0 list in any state satisfying the invariant:
-    no freed memory touched (the outcome is a result, not `uaf`), every entry handed out exactly
-    once in ascending order up to the point of abandonment, no notification, map unchanged -/
-theorem sl_traversal_safe_partial {s ids es g} (h : Inv s ids es g) (stop : Nat) :
-    s.step (.foreach stop none) = (s, ⟨[], .visited (takeStop stop (es.map kv)) (stop = 0 || es.length < stop)⟩) ∧
+/-- C18, memory safety, for ALL interleavings of iterator create/next/free (any number of
+    iterators, also abandoned part-way, unknown ids, next after the end) with
+    put/get/rm/count/foreach/notifier add/del/destroy, ALL LEVELS, outside `K_parked`:
+    no operation touches freed memory (nor diverges) and the model never crashes.  Removing the
+    entry BEHIND or BEFORE a parked iterator, the last OTHER entry, inserting anywhere (also right
+    behind a parked iterator) are all inside the theorem. -/
+theorem sl_iter_memory_safe_partial (ops : List Op) (hk : K_parked ops = false) :
+    (∀ o ∈ (run ops).2, o.res ≠ .uaf ∧ o.res ≠ .diverge) ∧ (run ops).1.crashed = false := by
+  have hk' : noRmParked create ops = true := by simpa [K_parked] using hk
+  obtain ⟨h1, _, h3⟩ := sim_runI ops sim_create hk'
+  obtain ⟨ids, hi⟩ := h1.inv
+  exact ⟨h3, hi.ok⟩
+
+/-- C18, completeness clauses, outside `K_parked`, all levels: EVERY result of the history — in
+    particular every `iter_next` — and every notification equal those of the specification, whose
+    iterators return "the next key greater than the last one returned" (`Dict.step`).  Hence an
+    iterator returns every key that is present for the whole iteration, exactly once when only
+    removals happen meanwhile, never a key that is not in the map, and reports the end exactly when
+    no greater key is left — for any number of simultaneously open iterators. -/
+theorem sl_refines_dict_iters_partial (ops : List Op) (hk : K_parked ops = false) :
+    results .sl (run ops) = results .sl (Dict.run .sl ops) ∧
+    trace .sl (run ops) = trace .sl (Dict.run .sl ops) := by
+  have hk' : noRmParked create ops = true := by simpa [K_parked] using hk
+  obtain ⟨_, _, h2, h3⟩ := sim_runC ops sim_create cur_create hk'
+  refine ⟨h3, ?_⟩
+  have := congrArg (List.map CTrace.seq) h2
+  simpa [trace, Flavour.sl, List.map_map, Function.comp_def, run, Dict.run] using this
+
+/-- … the notification trace of the whole history equals the dictionary's, and at the end the
+    level-0 chain holds exactly the dictionary's entries, the level structure is intact (strictly ascending, every node referenced
+    once plus once per iterator parked on it, forward arrays unshared), with the same iterators open -/
+theorem sl_iter_abstraction_partial (ops : List Op) (hk : K_parked ops = false) :
+    trace .sl (run ops) = trace .sl (Dict.run .sl ops) ∧
+    (∃ ids, Inv (run ops).1 ids (Dict.run .sl ops).1.entries (Dict.run .sl ops).1.globals) ∧
+    (Dict.run .sl ops).1.iters.map (·.1 + 1) = (run ops).1.iters.map (·.1) := by
+  have hk' : noRmParked create ops = true := by simpa [K_parked] using hk
+  obtain ⟨h1, h2, _⟩ := sim_runI ops sim_create hk'
+  refine ⟨?_, h1.inv, h1.iters⟩
+  have := congrArg (List.map CTrace.seq) h2
+  simpa [trace, Flavour.sl, List.map_map, Function.comp_def, run, Dict.run] using this
+
+/-- "Once the iterators are gone the map again behaves exactly like a dictionary holding the
+    surviving entries": after any history `ops1` of the fragment that has freed all its iterators,
+    every iterator-free continuation `ops2` gives the dictionary's results and notifications -/
+theorem sl_after_iters_dict_partial (ops1 ops2 : List Op)
+    (hk : K_parked ops1 = false) (hfree : (Dict.run .sl ops1).1.iters = [])
+    (h2 : ∀ op ∈ ops2, op.isIter = false) :
+    results .sl ((run ops1).1.runFrom ops2) = results .sl ((Dict.run .sl ops1).1.runFrom ops2) ∧
+    trace .sl ((run ops1).1.runFrom ops2) = trace .sl ((Dict.run .sl ops1).1.runFrom ops2) := by
+  have hk' : noRmParked create ops1 = true := by simpa [K_parked] using hk
+  obtain ⟨hs, _, _⟩ := sim_runI ops1 sim_create hk'
+  obtain ⟨_, e2, e3⟩ := sim_run ops2 hs hfree h2
+  refine ⟨e3, ?_⟩
+  have := congrArg (List.map CTrace.seq) e2
+  simpa [trace, Flavour.sl, List.map_map, Function.comp_def, run, Dict.run] using this
+
+/-- one step of any iterator in any state satisfying the invariant: parked on `p` whose level-0
+    successor is `n`, `iter_next` touches allocated memory only, returns the entry of `n`, moves
+    its reference from `p` to `n`, and changes nothing else -/
+theorem sl_iter_steps_partial {s ids es g} (h : Inv s ids es g) {k : Nat} {p n : NodeId} (hm : (k, some p) ∈ s.iters)
+    (hn : next0 s p = some n) :
+    ∃ e ∈ es, NodeOk s n e ∧ ∃ s', s.iterNext k (some p) = .ok (s', [], some (e.key, e.val)) ∧
+      Inv s' ids es g ∧ s'.iters = setIter s.iters k (some n) := by
+  obtain ⟨e, he, hok, _, s', h1, h2, h3, _⟩ := (iterNext_inv h hm).1 n hn
+  exact ⟨e, he, hok, s', h1, h2, h3⟩
+
+/-- complete and abandoned traversals in any state satisfying the invariant, whatever other
+    iterators are open: no freed memory touched, every entry handed out exactly once in ascending
+    order up to the point of abandonment, no notification, same entries and iterators afterwards -/
+theorem sl_traversal_safe_partial {s ids es g} (h : Inv s ids es g) (h0 : 0 ∉ s.iters.map (·.1)) (stop : Nat) :
+    (∃ s', s.foreach stop = .ok (s', ⟨[], .visited (takeStop stop (es.map kv)) (stop = 0 || es.length < stop)⟩) ∧
+      Inv s' ids es g ∧ s'.iters = s.iters) ∧
     (es.map kv).Pairwise (fun a b => Key.lt a.1 b.1 = true) := by
-  refine ⟨by simp [SL.step, h.ok, foreach_eq h stop], ?_⟩
-  rw [List.pairwise_map]
-  exact h.sorted
+  refine ⟨?_, ?_⟩
+  · obtain ⟨s', h1, h2, h3, _⟩ := foreach_eq h h0 stop
+    exact ⟨s', h1, h2, h3⟩
+  · rw [List.pairwise_map]
+    exact h.sorted
+
+/-- non-vacuity: a history with two iterators, removals next to and insertions behind the parked
+    entries, an abandoned iterator, is inside the theorems' hypotheses; the D16 witnesses are not -/
+theorem test_k_parked : K_parked [.put [0x61] 1 0, .put [0x62] 2 0, .put [0x63] 3 0, .iterNew 0 none, .iterNext 0,
+      .iterNew 1 none, .iterNext 1, .iterNext 1, .rm [0x63], .put [0x61, 0x31] 4 0, .iterNext 0, .iterNext 1,
+      .iterFree 1, .rm [0x62], .iterFree 0, .destroy] = false ∧
+    K_parked d16ops1 = true ∧ K_parked d16ops2 = true ∧ K_parked d16ops3 = true := by decide
 
 end QbVerif.Skiplist
